@@ -25,20 +25,15 @@ from harness.glue import xz as gxz
 
 C02_ENTRIES = E.XZ_ENTRIES + ("alone", "raw2", "raw_buffer")
 
-def model_check(ctx):
-    r = tlc.run("MCBound", workers=4, timeout=900)
-    ctx.add_tlc("MCBound", r, exhaustive=True)
-    if r.violation:
-        ctx.violation("model:MCBound:" + r.violation, r.out[-3000:], dict(kind="tlc_counterexample"))
-    ctx.log("MCBound:", r.summary())
-    b = tlc.run("MCBound", cfg="MCBoundBroken.cfg", workers=2, timeout=300)
-    ctx.tlc_runs.append(dict(name="MCBoundBroken(expected violation)", **b.summary()))
-    if not b.violation:
-        raise MachineryError("non-vacuity run MCBoundBroken found no violation: %s" % (b.summary(),))
-    r = tlc.run("MCEncLzma2", cfg="MCEncLzma2.cfg", workers=4, timeout=900)
-    ctx.add_tlc("MCEncLzma2", r, exhaustive=True)
-    if r.violation:
-        ctx.violation("model:MCEncLzma2:" + r.violation, r.out[-3000:], dict(kind="tlc_counterexample"))
+def model_check_runs():
+    out = []
+    r = tlc.run("MCBound", workers=3, timeout=900)
+    out.append(("MCBound", r, "mc"))
+    b = tlc.run("MCBound", cfg="MCBoundBroken.cfg", workers=1, timeout=300)
+    out.append(("MCBoundBroken(expected violation)", b, "broken:*"))
+    r = tlc.run("MCEncLzma2", cfg="MCEncLzma2.cfg", workers=3, timeout=900)
+    out.append(("MCEncLzma2", r, "mc"))
+    return out
 
 # ------------------------------------------------------------------------------------------- judge non-vacuity
 def judge_selftest(ctx):
@@ -190,7 +185,6 @@ def bound_sweep(ctx):
     ctx.extra["bound_calls"] = len(events)
 
 def run(ctx):
-    model_check(ctx)
     judge_selftest(ctx)
     plans = c01.gen_plans(ctx, [0] if ctx.quick else [0] + [ctx.seed * 100 + k for k in range(1, 6)])
     plans = [p for p in plans if p["entry"] in C02_ENTRIES]
@@ -201,8 +195,10 @@ def run(ctx):
         j["mode"] = "agg"
     order = sorted(range(len(jobs)), key=lambda k: -jobs[k]["inp"]["n"])
     t = time.time()
+    mc = c01.Background(model_check_runs)                       # (M) runs overlap with the case execution
     results = cases.run_all([jobs[k] for k in order], procs=4 if ctx.quick else 6, workdir=ctx.workdir)
     ctx.log("executed %d cases in %.1fs" % (len(results), time.time() - t))
+    c01.model_check_apply(ctx, mc.result())
     files, l2 = [], []
     for r in results:
         for key, detail in r["errors"]:
